@@ -416,7 +416,12 @@ def frag_stmt(rng, depth):
             # a procedure call with call-free actuals
             return rng.choice([('call', 'h', [frag_expr(rng, rng.randint(0, 2)), frag_expr(rng, rng.randint(0, 2), rng.choice(['int', 'bool']))]),
                                ('call', 'h0', [])])
-        if r < 0.85:
+        if r < 0.82:
+            # a function call with call-free actuals as the whole right-hand side / the whole value of a return
+            c = rng.choice([('call', 'k', [frag_expr(rng, rng.randint(0, 2)), frag_expr(rng, rng.randint(0, 2), rng.choice(['int', 'bool']))]),
+                            ('call', 'k0', [])])
+            return ('assign', rng.choice(FRAG_VARS), c) if rng.random() < 0.7 else ('return', c)
+        if r < 0.87:
             return ('return', frag_expr(rng, rng.randint(0, 2), rng.choice(['int', 'bool'])))
         if r < 0.9:
             return ('sys', 0, [frag_expr(rng, rng.randint(0, 2))])
@@ -460,6 +465,8 @@ def fragment_tie(ck, tools, scr, n):
                 'procs': [{'kind': kind, 'name': 'f', 'formals': forms, 'locals': locs, 'body': ('seq', body) if len(body) > 1 or rng.random() < 0.5 else body[0]},
                           {'kind': 'proc', 'name': 'h', 'formals': [('val', 'a'), ('val', 'b')], 'locals': [], 'body': ('assign', 'g0', ('bin', '+', ('var', 'a'), ('var', 'b')))},
                           {'kind': 'proc', 'name': 'h0', 'formals': [], 'locals': [], 'body': ('skip',)},
+                          {'kind': 'func', 'name': 'k', 'formals': [('val', 'a'), ('val', 'b')], 'locals': [], 'body': ('return', ('bin', '-', ('var', 'a'), ('var', 'b')))},
+                          {'kind': 'func', 'name': 'k0', 'formals': [], 'locals': [], 'body': ('return', ('num', 3))},
                           {'kind': 'proc', 'name': 'main', 'formals': [], 'locals': [],
                            'body': ('seq', [('assign', 'g0', ('num', 1)), ('assign', 'g1', ('num', 2)),
                                             ('sys', 0, [call]) if kind == 'func' else call])}]}
@@ -524,6 +531,62 @@ def fragment_tie(ck, tools, scr, n):
     shutil.rmtree(d, ignore_errors=True)
 
 
+def coq_listing(text):
+    """the instruction list of a Coq term  [LDBM 1; STAI 0; LDAC (-5); ADD; ..; LABEL 3; ..]  as listing_instrs gives it"""
+    import re
+    out = []
+    for tok in text.replace('\n', ' ').split(';'):
+        w = tok.replace('(', ' ').replace(')', ' ').split()
+        if not w:
+            continue
+        if len(w) == 1:
+            out.append((w[0], None))
+        elif w[0] in ('LABEL', 'BR', 'BRZ', 'BRN', 'LDAP'):
+            out.append((w[0], w[1]))
+        else:
+            out.append((w[0], int(w[1])))
+    return out
+
+
+def demo_tie(ck, tools, scr):
+    """coq/XCodegenDemo.v states (Examples demo_cproc_*) what the model generates for the procedures of its demo
+    program and says that this is what `xcmp -S` prints: re-check that text against the real xcmp, on the X source
+    quoted in the same file"""
+    import re
+    path = os.path.join(vlib.COQ, 'XCodegenDemo.v')
+    if not os.path.exists(path):
+        return
+    text = open(path).read()
+    m = re.search(r'X-SOURCE-BEGIN\n(.*?)X-SOURCE-END', text, re.S)
+    lists = re.findall(r'\(\* XCMP-LISTING (\w+) \*\)\s*\[(.*?)\]\.', text, re.S)
+    if not m or not lists:
+        ck.broken.append('demo tie: cannot find the X source / listings in coq/XCodegenDemo.v')
+        return
+    d = tempfile.mkdtemp(dir=scr)
+    open(os.path.join(d, 'demo.x'), 'w').write(m.group(1))
+    rc, out, err = xcommon._run([tools.xcmp, 'demo.x', '-S'], d, timeout=60)
+    if rc != 0:
+        ck.broken.append('demo tie: xcmp -S failed on the demo program: %s' % err[-200:])
+        return
+    ins = listing_instrs(out.decode('latin-1'))
+    same = 0
+    for name, body in lists:
+        try:
+            k = ins.index(('PROC', name)) if ('PROC', name) in ins else ins.index(('FUNC', name))
+            end = next(q for q in range(k + 1, len(ins)) if ins[q][0] in ('PROC', 'FUNC') or str(ins[q][1]).startswith('PADDING') or ins[q][0] == 'PADDING')
+        except (ValueError, StopIteration):
+            ck.broken.append('demo tie: cannot locate %s in the listing' % name)
+            continue
+        got = canon_labels([x for x in ins[k + 1:end] if x[0] != ''])
+        want = canon_labels(coq_listing(body))
+        if got != want:
+            ck.broken.append('coq/XCodegenDemo.v: the code stated for %s differs from the real xcmp: stated %r, xcmp %r' % (name, want, got))
+        else:
+            same += 1
+    ck.cov['coq_demo_listing_tie'] = {'procedures_stated': len(lists), 'identical_to_xcmp_S': same}
+    shutil.rmtree(d, ignore_errors=True)
+
+
 def replay(ck, tools, scr, path, monitor):
     o = json.load(open(path))
     _init(tools, scr, {'monitor': monitor, 'hexsim': True})
@@ -569,11 +632,13 @@ def main():
                       'proved part (Properties_C01.v): for expressions (literals, globals, locals, value formals, + - = < ~ and or, spills) and '
                       'statements (skip stop return if while sequence assignment exit put) of the form the code generator reads (after XConstProp.front), '
                       'the code of the model cg/cs run on Isa.run shows the behaviour XSem gives (C01_expr_fragment_partial, C01_stmt_fragment_partial); '
-                      'and for procedure-call statements with call-free actuals to procedures with value formals and var locals that hide no global '
+                      'and for procedure-call statements, and function calls as the whole right-hand side of an assignment or the whole value of a return, '
+                      'with call-free actuals, to procedures/functions with value formals and var locals that hide no global '
                       '(prologue, body, epilogue before the peepholes; recursion included; stack budget from XSem\'s depth bound) the same holds by a '
-                      'program-level induction (C01_calls_partial, C01_call_ok_partial); '
+                      'program-level induction (C01_calls_partial, C01_call_ok_partial), shown non-vacuous on a recursive demo program whose every hypothesis '
+                      'is discharged and whose stated code is re-checked here against xcmp -S (C01_calls_nonvacuous_hyps/_run, coq_demo_listing_tie); '
                       'the model is tied to the real xcmp on generated procedures (fragment_model_tie: identical code up to label names, incl. prologue, epilogue and peepholes); '
-                      'NOT proved: function calls and calls inside operands, array/proc formals, shadowing of globals, get, arrays, strings, the peephole pass, '
+                      'NOT proved: calls inside operands and actuals, array/proc formals, shadowing of globals, get, arrays, strings, the peephole pass, '
                       'the entry stub and whole-program layout -- decided per program by this check']
     if os.path.exists(os.path.join(vlib.COQ, 'Properties_%s.v' % PID)):
         ok = ck.proofs()
@@ -595,6 +660,7 @@ def main():
         n = 3000 if not ck.thorough() else 30000
         base = ck.rng.randrange(1 << 30)
         fragment_tie(ck, tools, scr, 150 if not ck.thorough() else 1500)
+        demo_tie(ck, tools, scr)
         jobs = corpus_jobs(PID) + directed_jobs() + shipped_jobs() + [('gen', base + i) for i in range(n)]
         results = pool.map(job, jobs, chunksize=8)
     summarise(ck, results, pool)
